@@ -320,7 +320,7 @@ CLAIMS = {
              "and accident periods no policy reaches is outside the share table's contract (reported as uncovered).",
         tech="Lean 4 proof over Q (conservation laws, round trip through aggregate) + regenerated tables + differential correspondence"),
     "C20": dict(level=PV, ref="§7 C20",
-        text="PARTIAL (altair/Vega-Lite validity is library behaviour, correspondence only). 20 kernel-checked theorems, none open, about the model of build_plot_data and FieldSummary: "
+        text="PARTIAL (altair/Vega-Lite validity is library behaviour, correspondence only). 25 kernel-checked theorems, none open, about the model of build_plot_data (both values of remove_empties: records_one_per_cell_in_order_opt, record_slots, spec_holds_on_model_opt) and FieldSummary: "
              "records_one_per_cell_in_order, lossRatio_value (100*loss/premium), passthrough_value, ata_value, "
              "absent_input_no_summary, quantile_levels_named and quantile_levels_sorted (decide +kernel over the "
              "tables regenerated from /repo: q2_5 -> 1/40 ... q97_5 -> 39/40 position by position), quantile_mono "
